@@ -10,19 +10,27 @@ option set, key, IV and signature, and that the protected ranges are what the fo
     follows the signature except the manifest digest (hash of the same prefix); the certificate block inside the prefix
     announces exactly that length;
   * HMAC: first 64 bytes under AES-ECB(user key, 0^16);  encryption: AES-CTR under the derived key decrypts to the plaintext.
-Certificate blocks are opaque: what the ROM's walk over the block answers is a hypothesis (`RomCertV1OK` / `RomCertV21OK`),
-the X.509 chain and the RSA / ECDSA verifications are returned as obligations (discharged with `cryptography` by the harness).
+Certificate blocks are opaque in the MBI model: what the ROM's walk over the block answers is a hypothesis (`RomCertV1OK` /
+`RomCertV21OK`).  Phase 2: the hypothesis is DISCHARGED for every block exported by the certificate-block model of C03
+(Proofs/CertBlockRom.lean, composed in Proofs/MbiRomBuilt.lean) - section "certificate block from the C03 model" at the end: the image built around the block SPSDK
+makes from a root-key list is accepted against the documented fuse value `Spec.rotkh`.
+The X.509 chain and the RSA / ECDSA verifications are returned as obligations (discharged with `cryptography` by the harness).
 -/
 import SpsdkVerif.Proofs.MbiRomCrc
 import SpsdkVerif.Proofs.MbiRomV1
 import SpsdkVerif.Proofs.MbiRomV21
 import SpsdkVerif.Proofs.MbiRomEnc
+import SpsdkVerif.Proofs.MbiRomNegCrc
+import SpsdkVerif.Proofs.MbiRomNegV1
+import SpsdkVerif.Proofs.MbiRomNegV21
+import SpsdkVerif.Proofs.MbiRomNegEnc
 import SpsdkVerif.Spec.Rotkh
+import SpsdkVerif.Proofs.MbiRomBuilt
 
 namespace SpsdkVerif.Properties.C02
 open SpsdkVerif SpsdkVerif.Mbi
 open SpsdkVerif.Generated
-open SpsdkVerif.Crypto (CryptoOps CryptoLaws hmac ecbEnc ctrXor)
+open SpsdkVerif.Crypto (CryptoOps CryptoLaws hmac ecbEnc ctrXor Break SigAlg PrivKey PubKey Rand)
 
 /-- the constants of the independent ROM spec are the constants the builder uses (generated from the current source) -/
 theorem spec_consts_agree :
@@ -199,5 +207,185 @@ theorem protected_total_crc (h : Mbi.Hyp co env c cfg signer) (hs : c.signKind =
   have : e = e' := by rw [he] at he'; exact Except.ok.inj he'
   subst this
   exact ⟨e, a, he, ha, hl⟩
+
+/-! ## protected_total for the signed / encrypted families: what the ROM model verifies is exactly what the builder signed -/
+
+/-- v2.1: the ROM's image obligation is over `pre`, the bytes the builder handed to the signer; the image is `pre`, its
+    signature and (optionally) the hash of `pre` - no authenticated byte lies outside what was signed -/
+theorem protected_total_v21 (h : Mbi.Hyp co env c cfg signer) (hf : c.family = some .signedV21) (ht : signedTypeOk c = true)
+    (rkth : Mbi.Bytes) (uk : Option Mbi.Bytes) (signPub : Mbi.Bytes) (obs : Mbi.Bytes → Nat → List Spec.MbiRom.Obligation)
+    (hrom : RomCertV21OK co (romEnvOf c rkth uk) cfg.cert cfg.sigLen signPub obs) :
+    ∃ e pre a, exportImage co c cfg signer = .ok e ∧ Spec.MbiRom.romCheck co (romEnvOf c rkth uk) e = .ok a
+      ∧ Spec.MbiRom.Obligation.ecdsa signPub pre (signer pre) ∈ a.obligations
+      ∧ e.length = pre.length + cfg.sigLen + (match cfg.digest with | some al => (co.hash al pre).length | none => 0)
+      ∧ e.take pre.length = pre := by
+  obtain ⟨e, pre, a, he, hform, hr, hob⟩ := Mbi.rom_accepts_signedV21 h hf ht rkth uk signPub obs hrom
+  refine ⟨e, pre, a, he, hr, ?_, ?_, ?_⟩
+  · rw [hob]; simp
+  · rw [hform]; cases cfg.digest <;> simp [h.hsig pre] <;> omega
+  · rw [hform]; simp [List.append_assoc]
+
+/-- v1 (with or without HMAC / key store): the ROM's RSA obligation covers `body[:n]` with `n` the length of the bytes the
+    builder signed, and the body is exactly those bytes followed by the signature -/
+theorem protected_total_v1 (h : Mbi.Hyp co env c cfg signer) (hf : c.family = some .signedV1) (ht : signedTypeOk c = true)
+    (rkth : Mbi.Bytes) (certs : List (Nat × Nat)) (table : List Mbi.Bytes)
+    (hrom : RomCertV1OK co (romEnvOf c rkth cfg.hmacKey) cfg.cert certs table) :
+    ∃ e pre a last, exportImage co c cfg signer = .ok e
+      ∧ Spec.MbiRom.romCheck co (romEnvOf c rkth cfg.hmacKey) e = .ok a
+      ∧ bodyOf c cfg e = pre ++ signer pre
+      ∧ Spec.MbiRom.Obligation.rsaByCert last pre.length ∈ a.obligations := by
+  obtain ⟨e, pre, he, hb, hl, _, _⟩ := Mbi.signed_range_is_prefix_signedV1 h hf
+  obtain ⟨e', a, last, he', hr, _, hob, _⟩ := Mbi.rom_accepts_signedV1 h hf ht rkth certs table hrom
+  have : e = e' := by rw [he] at he'; exact Except.ok.inj he'
+  subst this
+  exact ⟨e, pre, a, last, he, hr, hb, by rw [hob, hl]; simp⟩
+
+/-! ## the negative side: tampering is rejected - unconditionally for CRC, as reductions to an explicit break otherwise -/
+
+/-- CRC: ANY change of ANY single byte of an exported CRC image is rejected (CRC-32/MPEG-2 detects every single-byte error);
+    the only exception the format has: a change that turns the type bits into "plain" while the stored CRC word is 0 -/
+theorem bitflip_rejected_crc (h : Mbi.Hyp co env c cfg signer) (hs : c.signKind = .crc) (ht : crcTypeOk c = true)
+    (rkth : Mbi.Bytes) (uk : Option Mbi.Bytes) :
+    ∃ e, exportImage co c cfg signer = .ok e
+      ∧ ∀ (pre suf : Mbi.Bytes) (x y : UInt8), e = pre ++ x :: suf → x ≠ y →
+          ∀ a, Spec.MbiRom.romCheck co (romEnvOf c rkth uk) (pre ++ y :: suf) = .ok a →
+            (Spec.MbiRom.rd32 (pre ++ y :: suf) Spec.MbiRom.offFlags &&& Spec.MbiRom.maskImageType = Spec.MbiRom.typePlain
+              ∧ Spec.MbiRom.rd32 e Spec.MbiRom.offCrcOrCert = 0) := Mbi.crc_tamper_rejected h hs ht rkth uk
+
+/-- ECC signed: a changed application byte (not a layout word) that the ROM still accepts with its ECDSA obligations holding
+    is a signature forgery -/
+theorem bitflip_rejected_v21 (h : Mbi.Hyp co env c cfg signer) (hf : c.family = some .signedV21) (ht : signedTypeOk c = true)
+    (rkth : Mbi.Bytes) (uk : Option Mbi.Bytes) (signPub : Mbi.Bytes) (obs : Mbi.Bytes → Nat → List Spec.MbiRom.Obligation)
+    (hrom : RomCertV21OK co (romEnvOf c rkth uk) cfg.cert cfg.sigLen signPub obs)
+    (alg : SigAlg) (sk : PrivKey) (r : Rand) (hsigner : signer = fun m => co.sign alg sk m r) (hpub : signPub = co.pubOf sk) :
+    ∃ e, exportImage co c cfg signer = .ok e
+      ∧ ∀ (i : Nat) (y : UInt8), i < appLen c cfg → ¬ layoutWord i → e[i]? ≠ some y →
+          ∀ a, Spec.MbiRom.romCheck co (romEnvOf c rkth uk) (e.set i y) = .ok a →
+            (∀ ob ∈ a.obligations, holdsEcdsa co alg ob) → Break co :=
+  Mbi.tamper_rejected_signedV21 h hf ht rkth uk signPub obs hrom alg sk r hsigner hpub
+
+/-- RSA signed without HMAC: signature forgery -/
+theorem bitflip_rejected_v1 (h : Mbi.Hyp co env c cfg signer) (hf : c.family = some .signedV1) (ht : signedTypeOk c = true)
+    (hh : c.has .Mbi_MixinHmac = false)
+    (rkth : Mbi.Bytes) (certs : List (Nat × Nat)) (table : List Mbi.Bytes)
+    (hrom : RomCertV1OK co (romEnvOf c rkth cfg.hmacKey) cfg.cert certs table)
+    (alg : SigAlg) (sk : PrivKey) (r : Rand) (certPub : Mbi.Bytes → PubKey)
+    (hsigner : signer = fun m => co.sign alg sk m r)
+    (hpub : ∀ last, certs.getLast? = some last → certPub (slice (certInImage c cfg) last.1 (last.1 + last.2)) = co.pubOf sk) :
+    ∃ e, exportImage co c cfg signer = .ok e
+      ∧ ∀ (i : Nat) (y : UInt8), i < appLen c cfg → ¬ layoutWord i → e[i]? ≠ some y →
+          ∀ a, Spec.MbiRom.romCheck co (romEnvOf c rkth cfg.hmacKey) (e.set i y) = .ok a →
+            (∀ ob ∈ a.obligations, holdsRsa co alg certPub (e.set i y) ob) → Break co :=
+  Mbi.tamper_rejected_signedV1 h hf ht hh rkth certs table hrom alg sk r certPub hsigner hpub
+
+/-- images with HMAC (signed load-to-RAM): a changed byte of the first 64 bytes that is still accepted is an HMAC forgery -/
+theorem bitflip_rejected_hmac_header (h : Mbi.Hyp co env c cfg signer) (hf : c.family = some .signedV1) (ht : signedTypeOk c = true)
+    (hh : c.has .Mbi_MixinHmac = true)
+    (rkth : Mbi.Bytes) (certs : List (Nat × Nat)) (table : List Mbi.Bytes)
+    (hrom : RomCertV1OK co (romEnvOf c rkth cfg.hmacKey) cfg.cert certs table) :
+    ∃ e, exportImage co c cfg signer = .ok e
+      ∧ ∀ (i : Nat) (y : UInt8), i < IvtConsts.hmacOffset → ¬ layoutWord i → e[i]? ≠ some y →
+          ∀ a, Spec.MbiRom.romCheck co (romEnvOf c rkth cfg.hmacKey) (e.set i y) = .ok a → Break co :=
+  Mbi.tamper_rejected_hmac_header h hf ht hh rkth certs table hrom
+
+/-- images with HMAC: application bytes behind the HMAC / key-store block: signature forgery -/
+theorem bitflip_rejected_v1_hmac (h : Mbi.Hyp co env c cfg signer) (hf : c.family = some .signedV1) (ht : signedTypeOk c = true)
+    (hh : c.has .Mbi_MixinHmac = true)
+    (rkth : Mbi.Bytes) (certs : List (Nat × Nat)) (table : List Mbi.Bytes)
+    (hrom : RomCertV1OK co (romEnvOf c rkth cfg.hmacKey) cfg.cert certs table)
+    (alg : SigAlg) (sk : PrivKey) (r : Rand) (certPub : Mbi.Bytes → PubKey)
+    (hsigner : signer = fun m => co.sign alg sk m r)
+    (hpub : ∀ last, certs.getLast? = some last → certPub (slice (certInImage c cfg) last.1 (last.1 + last.2)) = co.pubOf sk) :
+    ∃ e, exportImage co c cfg signer = .ok e
+      ∧ ∀ (i : Nat) (y : UInt8),
+          (let strip := IvtConsts.hmacSize + (cfg.keyStore.getD []).length
+           IvtConsts.hmacOffset + strip ≤ i ∧ i - strip < appLen c cfg) → e[i]? ≠ some y →
+          ∀ a, Spec.MbiRom.romCheck co (romEnvOf c rkth cfg.hmacKey) (e.set i y) = .ok a →
+            (∀ ob ∈ a.obligations, holdsRsa co alg certPub (bodyOf c cfg (e.set i y)) ob) → Break co :=
+  Mbi.tamper_rejected_signedV1_hmac h hf ht hh rkth certs table hrom alg sk r certPub hsigner hpub
+
+/-- encrypted: header bytes - HMAC forgery; ciphertext bytes of the application - signature forgery -/
+theorem bitflip_rejected_encrypted_header (h : Mbi.Hyp co env c cfg signer) (hf : c.family = some .encrypted)
+    (ht : signedTypeOk c = true) (rkth : Mbi.Bytes) (certs : List (Nat × Nat)) (table : List Mbi.Bytes)
+    (hrom : RomCertV1OK co (romEnvOf c rkth cfg.hmacKey) cfg.cert certs table) :
+    ∃ e, exportImage co c cfg signer = .ok e
+      ∧ ∀ (i : Nat) (y : UInt8), i < IvtConsts.hmacOffset → ¬ layoutWord i → e[i]? ≠ some y →
+          ∀ a, Spec.MbiRom.romCheck co (romEnvOf c rkth cfg.hmacKey) (e.set i y) = .ok a → Break co :=
+  Mbi.tamper_rejected_encrypted_header h hf ht rkth certs table hrom
+
+theorem bitflip_rejected_encrypted (h : Mbi.Hyp co env c cfg signer) (hf : c.family = some .encrypted) (ht : signedTypeOk c = true)
+    (rkth : Mbi.Bytes) (certs : List (Nat × Nat)) (table : List Mbi.Bytes)
+    (hrom : RomCertV1OK co (romEnvOf c rkth cfg.hmacKey) cfg.cert certs table)
+    (alg : SigAlg) (sk : PrivKey) (r : Rand) (certPub : Mbi.Bytes → PubKey)
+    (hsigner : signer = fun m => co.sign alg sk m r)
+    (hpub : ∀ last, certs.getLast? = some last → certPub (slice (certInImage c cfg) last.1 (last.1 + last.2)) = co.pubOf sk) :
+    ∃ e, exportImage co c cfg signer = .ok e
+      ∧ ∀ (i : Nat) (y : UInt8),
+          (let strip := IvtConsts.hmacSize + (cfg.keyStore.getD []).length
+           IvtConsts.hmacOffset + strip ≤ i ∧ i - strip < appLen c cfg) → e[i]? ≠ some y →
+          ∀ a, Spec.MbiRom.romCheck co (romEnvOf c rkth cfg.hmacKey) (e.set i y) = .ok a →
+            (∀ ob ∈ a.obligations, holdsRsa co alg certPub (encBodyOf cfg (e.set i y)) ob) → Break co :=
+  Mbi.tamper_rejected_encrypted h hf ht rkth certs table hrom alg sk r certPub hsigner hpub
+
+
+/-! ## certificate block from the C03 model: the `RomCert…OK` hypotheses discharged, fuse value = `Spec.rotkh` of the root keys -/
+
+section CertBlockModel
+open SpsdkVerif.CertBlock SpsdkVerif.Rkht SpsdkVerif.Spec
+
+/-- every well-formed v2.1 block exported by the C03 model (with or without ISK certificate) satisfies `RomCertV21OK` -/
+theorem rom_cert_v21_of_model (pointOk : Mbi.Bytes → Bool) (ca : Bool) (used : Nat) (cv : Curve) (cb : CertBlockV21)
+    (wf : WFv21 co pointOk ca used cv cb) (rwf : RomWF co used cv cb) (renv : Spec.MbiRom.RomEnv)
+    (hrkth : renv.rkth = rotkhOfRecord co cv cb.rkr) :
+    RomCertV21OK co renv (bytesV21 cb) (signerOf cv cb).1.length (signerOf cv cb).1 (fun _ _ => obsOf cb) :=
+  Mbi.Built.rom_cert_v21_of_model pointOk ca used cv cb wf rwf renv hrkth
+
+/-- every well-formed v1 block exported by the C03 model satisfies `RomCertV1OK` (for every patched `image_length`) -/
+theorem rom_cert_v1_of_model (certOk : Mbi.Bytes → Bool) (cb : CertBlockV1) (wf : WFv1 certOk cb) (rwf : RomWFv1 cb)
+    (renv : Spec.MbiRom.RomEnv) (hrkth : renv.rkth = co.hash .sha256 (pad4 cb.rkh).flatten) :
+    RomCertV1OK co renv (bytesV1 cb) (relCerts cb.certs 32) (pad4 cb.rkh) :=
+  Mbi.Built.rom_cert_v1_of_model certOk cb wf rwf renv hrkth
+
+/-- END TO END, ECC signed: an image whose certificate block is the one SPSDK builds from the root keys `ks` (documented
+    domain, any used index) is accepted by the ROM fused with the documented value `Spec.rotkh … cert_block_21 ks`; the only
+    obligation left is the image signature under the selected root key - which holds when the signer signs with that key.
+    No hypothesis about the certificate block remains. -/
+theorem rom_accepts_signed_v21_built (h : Mbi.Hyp co env c cfg signer) (hf : c.family = some .signedV21) (ht : signedTypeOk c = true)
+    (uk : Option Mbi.Bytes) (ks : List Key) (hk : KeysOK .certBlock21 ks) (used : Nat) (hu : used < ks.length)
+    (r : RootKeyRecord) (hr : rkrCalculate co true ks used = .ok r)
+    (hcert : cfg.cert = bytesV21 ⟨2, 1, r, none⟩)
+    (alg : SigAlg) (sk : PrivKey) (rnd : Rand) (hsigner : signer = fun m => co.sign alg sk m rnd)
+    (hpub : ∀ ku, ks[used]? = some ku → ku.material = co.pubOf sk ∧ cfg.sigLen = ku.material.length) :
+    ∃ e pre a, exportImage co c cfg signer = .ok e
+      ∧ Spec.MbiRom.romCheck co (romEnvOf c (Spec.rotkh co .certBlock21 ks) uk) e = .ok a
+      ∧ a.obligations = [.ecdsa (co.pubOf sk) pre (signer pre)]
+      ∧ (∀ ob ∈ a.obligations, holdsEcdsa co alg ob) :=
+  Mbi.Built.rom_accepts_signed_v21_built h hf ht uk ks hk used hu r hr hcert alg sk rnd hsigner hpub
+
+/-- END TO END, RSA signed (plain signed, with HMAC / key store, or encrypted - same statement through the respective
+    acceptance theorem): with a certificate block exported by the C03 model whose RKH table is the one
+    `CertBlockV1.set_root_key_hash` computes from the root keys `ks`, the ROM fused with `Spec.rotkh … cert_block_1 ks`
+    accepts the image; the obligations left are the X.509 chain over the certificates of the block and the RSA signature
+    over the signed prefix -/
+theorem rom_accepts_signed_v1_built (h : Mbi.Hyp co env c cfg signer) (hf : c.family = some .signedV1) (ht : signedTypeOk c = true)
+    (ks : List Key) (hk : KeysOK .certBlock1 ks) (certOk : Mbi.Bytes → Bool) (cb : CertBlockV1) (wf : WFv1 certOk cb)
+    (rwf : RomWFv1 cb) (hrkh : certBlockV1Rkh co ks = .ok cb.rkh) (hcert : cfg.cert = bytesV1 cb) :
+    ∃ e a last, exportImage co c cfg signer = .ok e
+      ∧ Spec.MbiRom.romCheck co (romEnvOf c (Spec.rotkh co .certBlock1 ks) cfg.hmacKey) e = .ok a
+      ∧ ((relCerts cb.certs 32).map (fun p => (appLen c cfg + p.1, p.2))).getLast? = some last
+      ∧ a.obligations = [.x509Chain ((relCerts cb.certs 32).map (fun p => (appLen c cfg + p.1, p.2))) (pad4 cb.rkh),
+                         .rsaByCert last (totalLenForCertBlock c cfg).toNat] :=
+  Mbi.Built.rom_accepts_signed_v1_built h hf ht ks hk certOk cb wf rwf hrkh hcert
+
+
+theorem rom_accepts_encrypted_built (h : Mbi.Hyp co env c cfg signer) (hf : c.family = some .encrypted) (ht : signedTypeOk c = true)
+    (ks : List Key) (hk : KeysOK .certBlock1 ks) (certOk : Mbi.Bytes → Bool) (cb : CertBlockV1) (wf : WFv1 certOk cb)
+    (rwf : RomWFv1 cb) (hrkh : certBlockV1Rkh co ks = .ok cb.rkh) (hcert : cfg.cert = bytesV1 cb) :
+    ∃ e a raw, exportImage co c cfg signer = .ok e ∧ collect c cfg = .ok raw
+      ∧ Spec.MbiRom.romCheck co (romEnvOf c (Spec.rotkh co .certBlock1 ks) cfg.hmacKey) e = .ok a
+      ∧ a.plain = some raw :=
+  Mbi.Built.rom_accepts_encrypted_built h hf ht ks hk certOk cb wf rwf hrkh hcert
+
+end CertBlockModel
 
 end SpsdkVerif.Properties.C02
